@@ -1633,8 +1633,7 @@ def finding_id(c, impl_obs, kind):
          sorted-typeerror-incomparable-keys   : a TypeError where a key was due, on a value with incomparable sort keys
          masked-array-key-unhashable          : an unhashable key for a value with masked elements
          pandas-key-loses-index-dtype-order   : DIFFERENT values (one holding a Series/DataFrame) with EQUAL keys
-         sorted-partial-order-frozenset-keys,
-         counter-zero-count-distinct-keys     : EQUAL values with DIFFERENT keys (frozenset sort keys / a zero count)
+         sorted-partial-order-frozenset-keys  : EQUAL values with DIFFERENT keys (frozenset sort keys)
          diskcache-pickle-key-hashseed-frozenset : pickle cases with a seed dependent frozenset
        Anything else - in particular different values sharing a key without pandas - is a new violation."""
     k = c["kind"]
@@ -1668,8 +1667,6 @@ def finding_id(c, impl_obs, kind):
     if split and same:
         if _feat_partial(v) or _feat_partial(w):
             return "sorted-partial-order-frozenset-keys"
-        if _feat_zero_count(v) or _feat_zero_count(w):
-            return "counter-zero-count-distinct-keys"
     return None
 
 
